@@ -147,6 +147,17 @@ def shrink(prog, ops, cls):
     return prog, ops
 
 
+COMPOSITE = {"LoopTiling2DTrans", "InlineTrans", "KernelModuleInlineTrans",
+             "ArrayAssignment2LoopsTrans", "AllArrayAccess2LoopTrans",
+             "ArrayAccess2LoopTrans", "Sign2CodeTrans", "Abs2CodeTrans",
+             "Min2CodeTrans", "Max2CodeTrans", "Matmul2CodeTrans",
+             "DotProduct2CodeTrans", "Sum2LoopTrans", "Product2LoopTrans",
+             "Maxval2LoopTrans", "Minval2LoopTrans", "OMPTaskTrans",
+             "OMPTaskloopTrans", "HoistLocalArraysTrans", "ChunkLoopTrans",
+             "OMPParallelLoopTrans", "ACCLoopTrans", "OMPLoopTrans",
+             "Reference2ArrayRangeTrans", "ReplaceInductionVariablesTrans"}
+
+
 def rebuild(prog, base_ops, observer):
     """State = program + the accepted operations of the random history."""
     root = parse(prog)
@@ -161,7 +172,15 @@ def sweep(prog, rng, names, counters, log, observer, base_ops=()):
     """Returns (violation result, ops) or (None, None)."""
     from psyclone.psyir.nodes import Node
     cl = classes()
-    chosen = rng.sample(names, 5)
+    # transformations whose apply() runs several steps (nested apply()
+    # calls, mutate-then-check) are where a late refusal can happen: they
+    # get most of the sweep's attention
+    weights = [5.0 if n in COMPOSITE else 1.0 for n in names]
+    chosen = []
+    while len(chosen) < 5:
+        pick_ = rng.choices(names, weights)[0]
+        if pick_ not in chosen:
+            chosen.append(pick_)
     base_ops = list(base_ops)
     root = rebuild(prog, base_ops, observer)
     before = hm.snapshot(root)
@@ -173,9 +192,11 @@ def sweep(prog, rng, names, counters, log, observer, base_ops=()):
                     if type(n).__name__ in pref or
                     any(c.__name__ in pref for c in type(n).__mro__))
         optk = rng.randrange(len(hm.OPTIONS) * 2)
+        coptk = rng.randrange(16) if (name in hm.CLASS_OPTIONS and
+                                      rng.random() < 0.7) else None
         for k in range(min(count, 14)):
             op = {"cls": name, "ctor": 0, "t": k, "t2": k + 1, "pref": True,
-                  "span": 1, "opt": optk}
+                  "span": 1, "opt": optk, "copt": coptk}
             res = hm.apply_op(root, op, cl, observer)
             st = res["status"]
             counters.inc2("outcomes", "sweep-" + st)
